@@ -486,6 +486,42 @@ def run_C17(run):
                ("WordContains(1)", 'InvalidArgumentTypeException'), ("WordContains(['a', 1])", 'InvalidArgumentTypeException'),
                ("WordStartsWith(None)", 'InvalidArgumentTypeException'), ("WordStartsWith([None])", 'InvalidArgumentTypeException'),
                ("WordEndsWith(1.5)", 'InvalidArgumentTypeException'), ("WordEndsWith(['a', ['b']])", 'InvalidArgumentTypeException')]
+    T_, V_ = 'InvalidArgumentTypeException', 'InvalidArgumentValueException'
+    for lo in (0, 1, 2, -1, '1', 1.5, None):
+        for hi in (0, 1, 3, None, -2, '2', 2.5):
+            kinds = set()
+            if not isinstance(lo, int):
+                kinds.add(T_)
+            elif lo < 1:
+                kinds.add(V_)
+            if hi is not None and not isinstance(hi, int):
+                kinds.add(T_)
+            elif hi is not None and hi < 1:
+                kinds.add(V_)
+            if isinstance(lo, int) and isinstance(hi, int) and lo > hi:
+                kinds.add(V_)
+            if kinds:
+                invalid.append((f"Word({lo!r}, {hi!r})", '|'.join(sorted(kinds))))
+    for base in (2, 16, 1, 17, '2', 2.5):
+        for lo in (0, 1, -1, '1', True):
+            for hi in (1, None, 0, -1, '1', True):
+                kinds = set()
+                if not isinstance(base, int):
+                    kinds.add(T_)
+                elif base < 2 or base > 16:
+                    kinds.add(V_)
+                if not isinstance(lo, int) or isinstance(lo, bool):
+                    kinds.add(T_)
+                elif lo < 0:
+                    kinds.add(V_)
+                if hi is not None and (not isinstance(hi, int) or isinstance(hi, bool)):
+                    kinds.add(T_)
+                elif hi is not None and hi < 0:
+                    kinds.add(V_)
+                if isinstance(lo, int) and not isinstance(lo, bool) and isinstance(hi, int) and not isinstance(hi, bool) and hi < lo:
+                    kinds.add(V_)
+                if kinds:
+                    invalid.append((f"Numeral({base!r}, {lo!r}, {hi!r})", '|'.join(sorted(kinds))))
     for expr, exc in invalid:
         n_inv += 1
         try:
@@ -493,9 +529,9 @@ def run_C17(run):
             got = 'returned'
         except Exception as e:  # noqa: BLE001
             got = type(e).__name__
-        if got != exc:
+        if got not in exc.split('|'):
             run.add([V(f'C17|{expr}|invalid', f"{expr} -> {got}, expected {exc}",
-                       f"try:\n    {expr}\nexcept {exc}:\n    pass\nelse:\n    raise AssertionError")])
+                       f"try:\n    {expr}\nexcept ({exc.replace('|', ', ')}):\n    pass\nelse:\n    raise AssertionError")])
     run.merge_counts(tot)
     run.count('invalid_parameter_calls', n_inv)
     run.sample({'pattern': 'Numeral(13, 1, 3)', 'alphabet': ['0', 'c', 'C', 'd', 'g', '_'], 'candidates': 'all strings of length <= 5'})
